@@ -9,6 +9,9 @@ Property theorems for C13 (statements are printed by `#check`, axioms by `#check
 #check @Registry.ema_registry_correct
 #check @Registry.ema_registry_hull
 #check @Registry.emedian_registry_hull
+#check @Registry.emedRec_snoc
+#check @Registry.emed_state
+#check @Registry.emedian_registry_correct
 #print axioms`;
 `bin/check C13` re-elaborates this file on every run and audits the axiom lists).
 -/
@@ -28,3 +31,6 @@ open SignaloModel
 #print axioms Registry.ema_registry_correct
 #print axioms Registry.ema_registry_hull
 #print axioms Registry.emedian_registry_hull
+#print axioms Registry.emedRec_snoc
+#print axioms Registry.emed_state
+#print axioms Registry.emedian_registry_correct
